@@ -1402,6 +1402,9 @@ def gen_cases(rng, tier):
     # round 5c: segments without bins / with one bin (own generator, seeded last)
     from ._c17small5c import gen_small
     cases += gen_small(grng, tier)
+    only = os.environ.get("VERIF_C17_ONLY")   # restricted run for mutation tests: only the cases of one op
+    if only:
+        cases = [c for c in cases if c["op"] == only]
     return cases
 
 
